@@ -67,7 +67,23 @@ def _symbolise_solver(ctx, solver):
 
 
 @scenario
-def fastdiag_solve(ctx, dim, shape, dx, vector):
+def _laid_out(ctx, name, fs, layout):
+    """an array of shape fs with the requested memory layout (values arbitrary): the solvers accept any ndarray"""
+    if layout == "c":
+        return ctx.array(name, fs)
+    if layout == "interior":  # interior view of a ghost-padded allocation
+        big = ctx.array(name, tuple(n + 2 for n in fs))
+        return big[tuple(slice(1, -1) for _ in fs)]
+    if layout == "fortran":
+        return ctx.array(name, tuple(reversed(fs))).T
+    if layout == "strided":  # every second cell along the last axis
+        big = ctx.array(name, tuple(fs[:-1]) + (2 * fs[-1],))
+        return big[..., ::2]
+    raise ValueError(layout)
+
+
+@scenario
+def fastdiag_solve(ctx, dim, shape, dx, vector, layout="c", rhs_layout="c"):
     _, spne, _, _ = sopht_modules()
     shape = tuple(shape)
     rt_name = "float32" if ctx.real_t == np.float32 else "float64"
@@ -79,8 +95,8 @@ def fastdiag_solve(ctx, dim, shape, dx, vector):
         else:
             solver = spne.FastDiagPoissonSolver3D(grid_size_z=shape[0], grid_size_y=shape[1], grid_size_x=shape[2], dx=ctx.real_t(dx), real_t=ctx.real_t)
     fs = (3, *shape) if vector else shape
-    f = ctx.array("rhs", fs)
-    u = ctx.array("solution_prior", fs)
+    f = _laid_out(ctx, "rhs", fs, rhs_layout)
+    u = _laid_out(ctx, "solution_prior", fs, layout)
     bound_vars(ctx, f)
     if not ctx.sym:
         sb0 = ctx.array("spectral_buf", solver.spectral_field_buffer.shape)
@@ -201,10 +217,16 @@ def main():
         chk.add(solver_objects_do_not_share_state, real_t=rt, dim=2, shape=(3, 4), dx1=0.2, dx2=0.37)
         chk.add(solver_objects_do_not_share_state, real_t=rt, dim=3, shape=(2, 3, 4), dx1=0.2, dx2=0.37)
         chk.add(solver_objects_do_not_share_state, real_t=rt, dim=3, shape=(3, 3, 3), dx1=0.5, dx2=0.125)
+    # memory layout of the caller's arrays (ghost-padded interior, Fortran order, strided view)
+    for rt in rts:
+        for lay in ("interior", "fortran", "strided"):
+            chk.add(fastdiag_solve, real_t=rt, dim=2, shape=(3, 4), dx=0.2, vector=False, layout=lay, rhs_layout=lay)
+            chk.add(fastdiag_solve, real_t=rt, dim=3, shape=(2, 3, 4), dx=0.2, vector=False, layout=lay, rhs_layout="c")
+        chk.add(fastdiag_solve, real_t=rt, dim=3, shape=(2, 3, 2), dx=0.2, vector=True, layout="interior", rhs_layout="c")
     if chk.quick:
         chk.add(fastdiag_solve, real_t="float32", dim=2, shape=(3, 4), dx=0.2, vector=False)
         chk.add(fastdiag_solve, real_t="float32", dim=3, shape=(2, 3, 4), dx=0.2, vector=True)
-    chk.bounds = [f"2D shapes {s2[:8]}... ({len(s2)}), 3D shapes ({len(s3)}), dx in {dxs}, precisions {rts}", "rhs cells symbolic in [-1,1]; prior solution and spectral buffer contents arbitrary symbolic",
+    chk.bounds = [f"2D shapes {s2[:8]}... ({len(s2)}), 3D shapes ({len(s3)}), dx in {dxs}, precisions {rts}", "caller arrays C-contiguous, plus: interior of a ghost-padded allocation, Fortran order, strided view (on (3,4)/(2,3,4)/(2,3,2))", "rhs cells symbolic in [-1,1]; prior solution and spectral buffer contents arbitrary symbolic",
                   f"tolerances (absolute, rhs in [-1,1]): {TOL}"]
     chk.outside = ["sizes above the enumerated ones (the property's 'sizes 2..64')", "rounding inside solve() (exact product of the concrete float eigen-tables)", "LAPACK (its results are data)"]
     chk.assumptions = ["eigen-data returned by numpy.linalg.eig has exactly zero imaginary part (checked concretely each run); complex arithmetic with zero imaginary parts is modelled as real arithmetic",
